@@ -1,15 +1,22 @@
 """C18 — calls are independent of what was factored before (no hidden state carry-over)."""
-from vlib import common as C, hist as H
-LEVEL = "other"
+from vlib import common as C, hist as H, ustack as US
+LEVEL = "proof"
 EXPLANATION = ("Differential: a first-time probe call (simple or expert driver, one thread) is run in a fresh process and again after a prefix "
                "history (other sizes, singular input, illegal-argument call, workspace query, user-workspace run, refactorization sequence, destroy); "
-               "every output bit (info, permutations, X, L, U, equed, R, C, rcond, berr) must be identical. The state kept between calls "
+               "every output bit (info, permutations, X, L, U, equed, R, C, rcond, berr) must be identical. Theorem fresh_call_independent (Props/C18.lean) covers the "
+               "allocator's file-static state (whichspace, stack descriptor), tied to p?memory.c by the h_stack correspondence whose cases run in one process. The state kept between calls "
                "(static GlobalLU_t per precision, expander table, user stack, ?lacon statics) is listed in DESIGN.md; its reset-before-use is the theorem "
                "target (open) — this check is the correspondence/oracle part.")
 ASSUMPTIONS = ["one thread and single-threaded OpenBLAS so that results are deterministic", "prefix and probe use the same precision (statics are per precision)"]
 
 
 def run(ctx):
+    # allocator statics: model (setupSpace/ustep, theorem fresh_call_independent) <-> real p?memory.c, cases chained in one process
+    ust, udis = US.correspondence(ctx, 200 if ctx.quick() else 3000)
+    ctx.coverage["allocator_statics_correspondence"] = ust
+    for d in udis[:5]:
+        ctx.violation("ustack-correspondence:" + d["kind"], "allocator statics: real code and Model/UserStack.lean differ after a history of cases (%s prec=%s case=%s line=%s model=%s code=%s)" % (
+            d["kind"], d.get("prec"), d.get("case"), d.get("line"), d.get("model"), d.get("code")), d, no_input=(d["kind"] != "ustack-disagreement"))
     st, viol = H.run_differential(ctx, 220 if ctx.quick() else 6000)
     for key, what, blob in viol[:20]:
         ctx.violation(key, what, blob)
